@@ -4,8 +4,10 @@
                       same block format (events instead of logger text).
 -/
 import Masscanned.Model.Net
+import Masscanned.Model.Logger
 import Masscanned.Spec.Judge
 import Masscanned.Spec.LogGrammar
+import Masscanned.Spec.LogText
 import Masscanned.Spec.JudgeApp
 open Masscanned
 
@@ -84,10 +86,12 @@ def modelOp (s : DState) (line : String) : DState × List String :=
     | some f =>
       let o := step s.cfg s.env s.st f
       let evs := if s.cfg.logger = .none then [] else o.evs.map showEv
+      let outOpt : Option Bytes := match o.out with | .ok r => r | .error _ => none
+      let lns := (logLines s.cfg.logger f outOpt o.evs).map (fun l => "LN " ++ hexOf l)
       let r := match o.out with
         | .error e => "@@R PANIC " ++ siteName e
         | .ok r => "@@R " ++ showOut r
-      ({ s with st := o.st }, evs ++ [r])
+      ({ s with st := o.st }, evs ++ lns ++ [r])
   | ["A", tr, src, dst, sp, dp, ck, h] =>
     match parseIp src, parseIp dst, unhex h with
     | some src, some dst, some d =>
@@ -218,6 +222,18 @@ def judgeLog (line : String) : Option String :=
       let es := parts.map parseEv
       if es.any (·.isNone) then some "V FAIL 1 unparsable event line"
       else some (showVerdict (Spec.judgeC20 f ro (es.filterMap id)))
+  | ["T", lg, h, r, lns] =>
+    -- the real logger's stdout for one frame: every line must be a complete line of the format
+    match unhex h with
+    | none => some "V skip 0 bad-op"
+    | some f =>
+      let ro : Option Bytes := if r == "-" then none else unhex r
+      let parts := if lns == "-" then [] else lns.splitOn ";"
+      let es := parts.map (fun p => match unhex p with
+        | some l => if lg == "console" then Spec.LogText.parseConsole l else Spec.LogText.parseLogfmt l
+        | none => none)
+      if es.any (·.isNone) then some "V FAIL 1 a logger line is not a syntactically complete line of the format"
+      else some (showVerdict (Spec.judgeC20 f ro (es.filterMap id)))
   | _ => none
 
 def judgeApp (prop : String) (line : String) : Option String :=
@@ -251,7 +267,7 @@ def judgeApp (prop : String) (line : String) : Option String :=
 partial def judgeLoop (prop : String) (h : IO.FS.Stream) (out : IO.FS.Stream) (s : JD) : IO Unit := do
   let line ← h.getLine
   if line.isEmpty then return ()
-  let (s', o) := if line.startsWith "L " then (s, judgeLog line)
+  let (s', o) := if line.startsWith "L " ∨ line.startsWith "T " then (s, judgeLog line)
                  else if line.startsWith "A " ∨ line.startsWith "M " then (s, judgeApp prop line)
                  else judgeOp prop s line
   match o with
